@@ -721,9 +721,14 @@ func (sa *Application) UpdateAllocationResources(alloc *Allocation, isQuotaPreem
 	delta.Prune()
 
 	if existing.IsAllocated() {
-		// update allocated resources
-		sa.allocatedResource = resources.Add(sa.allocatedResource, delta)
-		sa.allocatedResource.Prune()
+		// update allocated resources: placeholders are tracked in their own total
+		if existing.IsPlaceholder() {
+			sa.allocatedPlaceholder = resources.Add(sa.allocatedPlaceholder, delta)
+			sa.allocatedPlaceholder.Prune()
+		} else {
+			sa.allocatedResource = resources.Add(sa.allocatedResource, delta)
+			sa.allocatedResource.Prune()
+		}
 		sa.queue.IncAllocatedResource(delta, isQuotaPreemptionEnabled)
 
 		// update user usage
